@@ -127,6 +127,10 @@ def run_dem(case):
 def dem_term(case, obs):
     from harness.c10 import tensor_term
     X = [decarr(m, 2) for m in case["X"]]
+    if any(e[0] != "rand" or len(e[2]) for e in dec_events(obs["events0"])):
+        # the model's mutation with scalar F and no jitter draws nothing; V0 is still the unrepaired mutant of this call (it is a function
+        # of the parents alone), so the property oracle is unaffected: this is a disagreement of the draw protocol, not a failing input
+        raise ValueError("mutation with scalar F and no jitter consumed random draws")
     return ("match dem_do (N:=Fn) (FScalar (N:=Fn) %s) None %s (Some (%s, %s)) %s %s with\n"
             "  | Ok (V, rest) => no_events rest && fmat_same V %s\n  | Err _ => false end") % (
         cfs(case["F"]), NAMES[case["name"]], cfl(decarr(case["xl"])), cfl(decarr(case["xu"])), tensor_term(X),
@@ -174,8 +178,6 @@ class C11(Check):
         if not obs["args_unchanged"]:
             return "C11-frame: base vectors or bounds were modified"
         if case.get("api") == "dem":
-            if dec_events(obs["events0"]):
-                return "C11-dem: mutation with scalar F and no jitter consumed random draws"
             V0 = decarr(obs["V0"], 2); Xb = decarr(case["X"][0], 2)
             return repair_oracle(case["name"], V0, Xb, decarr(case["xl"]), decarr(case["xu"]), decarr(obs["Z"], 2), tag="C11-dem")
         return repair_oracle(case["name"], decarr(case["X"]), decarr(case["Xb"]), decarr(case["xl"]), decarr(case["xu"]), decarr(obs["Z"]))
